@@ -1,8 +1,8 @@
 #!/bin/bash
 # usage: tools/seedimport.sh <property id> <variant> -- copy a confirmed seeded change from /tmp/seed-<id>/_seed/<variant> to /verif/seeded/<id>-<variant>/
-ID=$1; V=$2; S=/tmp/seed-$ID/_seed/$V; D=/verif/seeded/$ID-$V
+ID=$1; V=$2; BASE=${3:-/tmp/seed-$ID}; S=$BASE/_seed/$V; D=/verif/seeded/$ID-$V
 mkdir -p $D
 cp $S/patch.diff $D/; cp $S/NOTES.md $D/ 2>/dev/null
 mkdir -p $D/demo; for f in $S/*.c $S/*.h $S/run.sh $S/*.diff $S/Makefile; do [ -f "$f" ] && [ "$(basename $f)" != patch.diff ] && cp $f $D/demo/; done
-grep "variant=/tmp/seed-$ID/$V " /tmp/seed-$ID/_verify.log > $D/verify.txt
+grep "variant=$BASE/$V " $BASE/_verify.log > $D/verify.txt
 echo imported $D; cat $D/verify.txt
